@@ -153,19 +153,23 @@ SetHdrX(v, closefd) == obs' = [obs EXCEPT !.hdrSets = @ + (IF pa.hdr = "unset" T
 SetHdr(v) == SetHdrX(v, FALSE)
 HdrAfter(v) == IF pa.hdr = "unset" THEN v ELSE pa.hdr
 
+(* end of input: the real PBF parser (hdrblk) fails when the input ends before the OSMHeader blob - that only happens
+   when the read thread was stopped before its first read *)
+InputEnd == IF cfg.hdrblk /\ ~cfg.fd /\ pa.n = 0 THEN "fail" ELSE "end"
+
 PGet == /\ pa.pc = "get"                                         \* input_done() / queue_wrapper::pop: in_use()?
-        /\ pa' = [pa EXCEPT !.pc = IF inQ.inUse THEN "wait" ELSE "end"]
+        /\ pa' = [pa EXCEPT !.pc = IF inQ.inUse THEN "wait" ELSE InputEnd]
         /\ UNCHANGED <<cfg, expected, inQ, outQ, futs, done, rt, co, clog, obs>>
 
 PWait == /\ pa.pc = "wait" /\ (inQ.items # <<>> \/ ~inQ.inUse)
-         /\ IF inQ.items = <<>> THEN /\ pa' = [pa EXCEPT !.pc = "end"] /\ inQ' = inQ
+         /\ IF inQ.items = <<>> THEN /\ pa' = [pa EXCEPT !.pc = InputEnd] /\ inQ' = inQ
             ELSE LET h == Head(inQ.items) IN
                  CASE h.k = "data" -> /\ inQ' = [inQ EXCEPT !.items = Tail(@)]
                                       /\ pa' = [pa EXCEPT !.pc = "parse", !.n = h.n]
                    [] h.k = "exc"  -> /\ inQ' = [inQ EXCEPT !.items = Tail(@)]
                                       /\ pa' = [pa EXCEPT !.pc = "fail"]
                    [] h.k = "eod"  -> /\ inQ' = [inQ EXCEPT !.items = Tail(@)]    \* pop() shuts the queue down at the end marker
-                                      /\ pa' = [pa EXCEPT !.pc = "sd0", !.nxt = "end"]
+                                      /\ pa' = [pa EXCEPT !.pc = "sd0", !.nxt = InputEnd]
          /\ UNCHANGED <<cfg, expected, outQ, futs, done, rt, co, clog, obs>>
 
 (* 'fd' mode (PBF): the parser reads the next blob from the descriptor itself *)
@@ -186,16 +190,22 @@ PParse == /\ pa.pc = "parse"
                   /\ IF f.k = "parse" /\ f.at = m
                      THEN /\ pa' = [pa EXCEPT !.pc = "fail", !.hdr = HdrAfter("val")] /\ futs' = futs
                      ELSE IF cfg.hdrblk /\ m = 1                            \* PBF: the OSMHeader blob yields the header and no data
-                     THEN /\ pa' = [pa EXCEPT !.pc = "fdread", !.hdr = HdrAfter("val")] /\ futs' = futs
+                     THEN /\ pa' = [pa EXCEPT !.pc = IF cfg.fd THEN "fdread" ELSE "get", !.hdr = HdrAfter("val")] /\ futs' = futs
                      ELSE /\ NewFut([k |-> "blk", n |-> m, ready |-> ~cfg.pool, fail |-> (f.k = "work" /\ f.at = m)])
                           /\ pa' = [pa EXCEPT !.pc = "pchk", !.hdr = HdrAfter("val"), !.item = Len(futs) + 1,
-                                              !.nxt = IF cfg.fd THEN "fdnext" ELSE "get"]
+                                              !.nxt = IF cfg.fd THEN "fdnext" ELSE IF cfg.hdrblk THEN "qnext" ELSE "get"]
           /\ UNCHANGED <<cfg, expected, inQ, outQ, done, rt, co, clog>>
 
 (* fd mode after the F6 repair: the blob loop ends when the output queue has been shut down *)
 PFdNext == /\ pa.pc = "fdnext"
            /\ pa' = [pa EXCEPT !.pc = IF outQ.inUse \/ ~cfg.fdstop THEN "fdread" ELSE "end"]
            /\ UNCHANGED <<cfg, expected, inQ, outQ, futs, done, rt, co, clog, obs>>
+
+(* the real PBF parser leaves its blob loop when the output queue has been shut down - also when its data arrives
+   through the input queue (hdrblk marks the real PBF parser) *)
+PQNext == /\ pa.pc = "qnext"
+          /\ pa' = [pa EXCEPT !.pc = IF outQ.inUse THEN "get" ELSE "end"]
+          /\ UNCHANGED <<cfg, expected, inQ, outQ, futs, done, rt, co, clog, obs>>
 
 PEnd == /\ pa.pc = "end"                                          \* run() returned normally
         /\ SetHdrX("val", cfg.fd)                                    \* PBFParser::run closes the descriptor at its normal end
@@ -237,7 +247,7 @@ PShut1 == /\ pa.pc = "sd1"
           /\ pa' = [pa EXCEPT !.pc = pa.nxt]
           /\ UNCHANGED <<cfg, expected, outQ, futs, done, rt, co, clog, obs>>
 
-PNext == PGet \/ PWait \/ PFdRead \/ PParse \/ PFdNext \/ PEnd \/ PFail \/ PEod \/ PPushChk \/ PPushEnq \/ PDtor \/ PShut0 \/ PShut1
+PNext == PGet \/ PWait \/ PFdRead \/ PParse \/ PFdNext \/ PQNext \/ PEnd \/ PFail \/ PEod \/ PPushChk \/ PPushEnq \/ PDtor \/ PShut0 \/ PShut1
 
 (* ---- pool workers: complete pending futures in any order ---- *)
 Worker == /\ \E f \in 1..Len(futs) :
